@@ -257,6 +257,18 @@ class SymEnv:
         self.inputs[name] = ((), "real")
         return S.SymScalar(z3.Real(name))
 
+    def boolean(self, name):
+        """symbolic bool; bool(x) forks the path"""
+        self.inputs[name] = ((), "bool")
+        return S.SymScalar(z3.Bool(name))
+
+    def integer(self, name, lo, hi):
+        """symbolic int in [lo, hi]; int(x)/indexing forks, arithmetic stays symbolic"""
+        self.inputs[name] = ((), "int")
+        v = z3.Int(name)
+        self.ctx.assume(z3.And(v >= lo, v <= hi))
+        return S.SymScalar(v)
+
     def tensor(self, name, shape, dtype=None, requires_grad=False):
         shape = (shape,) if isinstance(shape, int) else tuple(shape)
         self.inputs[name] = (shape, "real")
@@ -276,7 +288,7 @@ class SymEnv:
     def v(self, x):
         """element / scalar value for formulas"""
         if isinstance(x, S.SymScalar):
-            return _zr(x.t)
+            return x.t if (T.is_sym(x.t) and (z3.is_bool(x.t) or z3.is_int(x.t))) else _zr(x.t)
         if isinstance(x, S.SymT):
             if x.meta.numel() == 1:
                 return _zr(x.flat()[0])
@@ -297,6 +309,12 @@ class ReplayEnv:
 
     def scalar(self, name):
         return float(self.values.get(name, 0.0))
+
+    def boolean(self, name):
+        return bool(self.values.get(name, False))
+
+    def integer(self, name, lo, hi):
+        return int(self.values.get(name, lo))
 
     def tensor(self, name, shape, dtype=None, requires_grad=False):
         shape = (shape,) if isinstance(shape, int) else tuple(shape)
@@ -454,7 +472,11 @@ def _start_monitor():
 def _model_inputs(model, env_inputs):
     vals = {}
     for name, (shape, kind) in env_inputs.items():
-        if shape == ():
+        if kind == "bool":
+            vals[name] = bool(T.model_float(model, z3.Bool(name)))
+        elif kind == "int":
+            vals[name] = int(T.model_float(model, z3.Int(name)))
+        elif shape == ():
             vals[name] = T.model_float(model, z3.Real(name))
         else:
             for idx in np.ndindex(*shape):
